@@ -561,6 +561,7 @@ func (db *DB) tableCompaction(c *compaction, noTrivial bool) {
 	verifJobBegin()
 	defer verifJobEnd()
 	defer c.release()
+	verifNotePick(db.s, c, noTrivial)
 
 	rec := &sessionRecord{}
 	rec.addCompPtr(c.sourceLevel, c.imax)
